@@ -76,23 +76,16 @@ Section Spec.
     | sc :: l' => (if due sc k then side_events ci sc else []) ++ passes_from (S ci) l' k
     end.
 
+  (* the (j+1)-th update of epoch e: its counters and what the stream shows for it
+     (the batch, then the passes of the configs that are due, in config order) *)
   Record upd := { u_k : counters; u_events : list event }.
 
-  Fixpoint epoch_updates_from (e : Z) (bs : list (list Z)) (j : nat) (rest : list (list Z)) : list upd :=
-    match rest with
-    | [] => []
-    | b :: rest' =>
-        let k := counters_at e bs j in
-        {| u_k := k;
-           u_events := (if (j =? 0)%nat then [SetEpoch e] else [])
-                         ++ emit Main b ++ passes_from 0 (sides c) k |}
-          :: epoch_updates_from e bs (S j) rest'
-    end.
-  Definition epoch_updates (e : Z) : list upd :=
-    epoch_updates_from e (epoch_batches e) 0 (epoch_batches e).
+  Definition upd_at (e : Z) (bs : list (list Z)) (j : nat) : upd :=
+    let k := counters_at e bs j in
+    {| u_k := k; u_events := emit Main (nth j bs []) ++ passes_from 0 (sides c) k |}.
 
-  Fixpoint updates_from (e0 : Z) (n : nat) : list upd :=
-    match n with O => [] | S n' => epoch_updates e0 ++ updates_from (e0 + 1) n' end.
+  Definition epoch_updates (e : Z) : list upd :=
+    let bs := epoch_batches e in map (upd_at e bs) (seq 0 (length bs)).
 
   Definition hit (u : upd) : bool :=
     budget_reached c (k_epoch (u_k u)) (k_update (u_k u)) (k_sample (u_k u)).
@@ -105,11 +98,24 @@ Section Spec.
                  else let '(r, f) := take_until p l' in (x :: r, f)
     end.
 
+  (* what epoch e shows: the announcement, then its updates up to and including
+     the first one at which the budget is reached; and whether that happened *)
+  Definition epoch_events (e : Z) : list event :=
+    SetEpoch e :: flat_map u_events (fst (take_until hit (epoch_updates e))).
+  Definition epoch_hits (e : Z) : bool := snd (take_until hit (epoch_updates e)).
+
   (* the run from the beginning of epoch e0, looking at most n epochs ahead:
-     all updates up to and including the first one at which the budget is reached *)
-  Definition spec_run (e0 : Z) (n : nat) : option (list event) :=
-    let '(us, found) := take_until hit (updates_from e0 n) in
-    if found then Some (flat_map u_events us) else None.
+     epoch after epoch until the budget is reached (None: not within n epochs) *)
+  Fixpoint spec_run (e0 : Z) (n : nat) : option (list event) :=
+    match n with
+    | O => None
+    | S n' =>
+        if epoch_hits e0 then Some (epoch_events e0)
+        else match spec_run (e0 + 1) n' with
+             | Some rest => Some (epoch_events e0 ++ rest)
+             | None => None
+             end
+    end.
 
   (* a zero budget: exactly one full pass over every config, in order *)
   Fixpoint spec_eval (ci : nat) (l : list side_cfg) : list event :=
